@@ -73,14 +73,32 @@ def eval_case(case: dict) -> dict:
         out['violations'].append({'mechanism': mech, 'detail': detail, 'case': case})
 
     enc = {'encapsulee': 'N.C', 'filename': 'Model.dzn', 'suffix': 'Shell',
+           'names_as': case.get('names_as', 'set'),
            'provides': case['psel'], 'requires': case['rsel'], 'multiclient': case.get('mc'),
            'origin': case.get('origin', 'create'), 'copyright': 'c', 'creator': None,
            'prefix': None}
     got_map = None
     files = None
     exc_info = None
+    other_container = case.get('names_as', 'set') != 'set' and any(
+        isinstance(sel, list) for side in (case['psel'], case['rsel']) for sel in side.values())
     try:
-        pcfg = shellbuild.make_ports_cfg(enc)
+        try:
+            pcfg = shellbuild.make_ports_cfg(enc)
+        except Exception as exc:  # pylint: disable=broad-except
+            info = common.classify_exception(exc)
+            if other_container and info['class'] != 'INTERNAL':
+                # names in another container than a set: refusing them outright (the library
+                # does, with a TypeError) is one of the two answers; the other one is to
+                # treat them like the set
+                cnt[f'names_as_{case["names_as"]}_refused_at_construction'] = 1
+                out['digest'] = common.digest(case)
+                out['nontrivial'] = False
+                out['sample'] = case
+                return out
+            raise
+        if other_container:
+            cnt[f'names_as_{case["names_as"]}_accepted'] = 1
         if zlib.crc32(json.dumps(case, sort_keys=True, default=str).encode()) % 2:
             # one rule object looped over several components: it has matched another
             # component's ports (and possibly refused them) before it meets these
@@ -281,6 +299,8 @@ def _worker(chunk):
     before = dict(shellbuild.STATS)
     for idx, case in enumerate(chunk):
         case = dict(case, shared=idx % 3 != 0)
+        if idx % 5 == 4:
+            case['names_as'] = ['frozenset', 'list', 'tuple', 'keys'][(idx // 5) % 4]
         case.setdefault('port_order', zlib.crc32(json.dumps(case, sort_keys=True).encode()) % 6)
         res = eval_case(case)
         for key, val in res['counts'].items():
@@ -304,7 +324,7 @@ def main(tier: str) -> int:
                 'side against every component shape, at match and at build level, with the other '
                 f'side fixed to a valid selection; names per side <= {2 if tier == "quick" else 3}'}
     run.require('match_calls', 'builds', 'builds_on_reused_builder_and_model',
-                'ports_cfg_object_matched_other_ports_first', 'headers_inspected', 'ref_accept', 'ref_reject',
+                'ports_cfg_object_matched_other_ports_first', 'configured_via_constructor_positional', 'headers_inspected', 'ref_accept', 'ref_reject',
                 'configured_via_preset_all_mts', 'configured_via_preset_all_sts',
                 'configured_via_preset_all_sts_all_mts', 'configured_via_preset_all_mts_all_sts',
                 'configured_via_preset_all_mts_mixed_ts', 'configured_via_preset_all_sts_mixed_ts',
